@@ -724,6 +724,26 @@ def segments_more(data):
     return out
 
 
+def first_failure(data):
+    """start offset of the first keypress of `data` that progressive decoding (get_key, one more byte at a time) cannot
+    complete - because get_key raises or the data end inside it; None when everything decodes"""
+    i, n = 0, len(data)
+    while i < n:
+        start, cur = i, []
+        while True:
+            if i >= n:
+                return start
+            cur.append(data[i:i + 1])
+            i += 1
+            try:
+                k = cevents.get_key(cur, ENC, keynames=cevents.Keynames.BYTES, full=False)
+            except (UnicodeDecodeError, ValueError):
+                return start
+            if k is not None:
+                break
+    return None
+
+
 def ideal_segments(data):
     """The keypresses of a burst as an ideal decoder sees them: it always has the whole burst buffered, so `full` is true
     only on the burst's last byte.  Independent of Input: curtsies.events.get_key fed one more byte at a time.
@@ -755,6 +775,7 @@ class Ledger:
         self.case = case
         self.blind = set()        # sources whose internal queue could not be read (judged by draining at the end)
         self.raisers = []
+        self.desync = False       # blind mode only: the position of a loss could not be determined
         self.no_footprints = no_footprints   # re-judging a case on which model and code disagree: nothing is excused
         self.pend0 = b""
         self.S = bytearray()      # stream bytes in arrival order
@@ -801,7 +822,7 @@ class Ledger:
                 if e not in self.ret.get(k, []) and (k, e) not in self.inflight]
 
     def deliverable(self, clock):
-        if len(self.R) < len(self.S) + len(self.U) or self.sig_in > self.sig_out:
+        if (len(self.R) < len(self.S) + len(self.U) and not self.desync) or self.sig_in > self.sig_out:
             return True
         if self.completed_pending():
             return True
@@ -816,14 +837,69 @@ class Ledger:
         self.n_sched_at_start = len(self.sched)
         self.spur0 = env.spurious
         h0 = env.held()
-        self.pend0 = h0["u"] + h0["o"]       # what the Input and the OS buffer hold when the request starts
+        # what the Input and the OS buffer hold when the request starts (None: the Input's buffer cannot be read)
+        self.pend0 = None if h0["u"] is None else h0["u"] + h0["o"]
         self.req += 1
+
+    def blind_raise(self, r, reads):
+        """A request raised and the Input's byte buffer cannot be read.  What find_key had popped for the failing key is in
+        the exception (decoder input / message), as loss_footprint uses it; the pending bytes are what arrived minus what was
+        returned (the ledger is kept resynchronised).  The loss is recorded - with the known finding's footprint when the
+        failing key has its shape - and the ledger forgets the lost bytes, so that later requests are judged on their own."""
+        if isinstance(r, UnicodeDecodeError):
+            cur, kind = bytes(r.object), None
+            if len(cur) >= 2 and cur[:-1] in cevents.KEYMAP_PREFIXES and cur[-1] >= 0x80:
+                kind = "D12"
+            elif cur and cur[0] >= 0x80 and not cevents.decodable(cur, ENC) and not cevents.could_be_unfinished_char(cur, ENC):
+                kind = "D35"
+        elif isinstance(r, ValueError) and str(r).startswith("Couldn't identify key sequence"):
+            cur, kind = parse_lost(str(r)), "D15"
+            try:
+                pieces = [cur[i:i + 1] for i in range(len(cur))]
+                if (not cur or len(cur) >= cevents.MAX_KEYPRESS_SIZE
+                        or any(cevents.get_key(pieces[:j], ENC, keynames=cevents.Keynames.BYTES, full=False) is not None
+                               for j in range(1, len(cur)))
+                        or cevents.get_key(pieces, ENC, keynames=cevents.Keynames.BYTES, full=True) is not None):
+                    kind = None
+            except Exception:  # noqa: BLE001
+                kind = None
+        else:
+            self.fail("request raised %s: %s" % (type(r).__name__, r), None)
+            return
+        if self.U or not cur:
+            # with unget bytes in play the position of the loss is not determined by the returned values alone
+            self.desync = True
+            self.fail("bytes lost (request raised %s)" % type(r).__name__, None if self.no_footprints else kind)
+            return
+        pending = bytes(self.S)[len(self.R):]
+        thr = self.case["thr"]
+        first = next((d for d in reads if d != 0), None)
+        in_paste = first is not None and thr is not None and len(first) > thr
+        cut = None
+        if in_paste:
+            # the paste's cleanly decoded keypresses, then the failing key: where progressive decoding of the pending bytes
+            # first fails is determined by the bytes alone
+            pos = first_failure(pending)
+            if pos is not None and pending[pos:pos + len(cur)] == cur:
+                cut = pos + len(cur)
+        elif pending.startswith(cur):
+            cut = len(cur)
+        if cut is None:
+            self.desync = True
+            self.fail("bytes lost (request raised %s): the failing key %r is not at the head of the pending bytes"
+                      % (type(r).__name__, cur), None)
+            return
+        self.fail("bytes lost (request raised %s): %d pending bytes gone" % (type(r).__name__, cut),
+                  None if self.no_footprints else kind)
+        del self.S[len(self.R):len(self.R) + cut]
 
     def loss_footprint(self, how, r, recs, h, reads):
         """Known-finding footprint of a loss, judged on WHICH bytes were lost: exactly the bytes find_key had popped for the
         key it failed on - preceded, only when a paste was being collected, by the cleanly decoded keypresses of that paste.
         Anything more (buffered bytes thrown away as well, complete keypresses among the lost bytes) is not a known finding."""
         if how != "raised" or self.no_footprints:
+            return None
+        if self.pend0 is None:
             return None
         pending = self.pend0 + b"".join(x[1] for x in recs if x[0] in ("arrive", "unget"))
         held = h["u"] + h["o"]
@@ -914,11 +990,11 @@ class Ledger:
         h = env.held()
         if h["u"] is None:
             self.blind.add("bytes")
-            if not is_shuffle_prefix(bytes(self.R), bytes(self.S), bytes(self.U)):
+            if how == "raised":
+                self.blind_raise(r, reads)
+            if not self.desync and not is_shuffle_prefix(bytes(self.R), bytes(self.S), bytes(self.U)):
                 self.fail("keypress bytes duplicated or reordered: %d returned are not a prefix of the %d that arrived"
                           % (len(self.R), len(self.S) + len(self.U)))
-            if how == "raised":
-                self.raisers.append(r)
         else:
             merged = bytes(self.R) + h["u"] + h["o"]
             if not is_shuffle(merged, bytes(self.S), bytes(self.U)):
@@ -1019,23 +1095,10 @@ def drain(env, led):
             break
     env.advance(10 ** 6)
     left = bytes(env.osbuf)
-    if "bytes" in led.blind and not is_shuffle(bytes(led.R) + left, bytes(led.S), bytes(led.U)):
-        # bytes are missing after the drain: excused only by requests that raised inside a known finding's footprint
-        lost_n = len(led.S) + len(led.U) - len(led.R) - len(left)
-        curs = [parse_lost(str(x)) if not isinstance(x, UnicodeDecodeError) else bytes(x.object) for x in led.raisers]
-        kinds = set()
-        for x in led.raisers:
-            if isinstance(x, UnicodeDecodeError):
-                c = bytes(x.object)
-                kinds.add("D12" if len(c) >= 2 and c[:-1] in cevents.KEYMAP_PREFIXES and c[-1] >= 0x80 else
-                          "D35" if c and c[0] >= 0x80 else None)
-            elif str(x).startswith("Couldn't identify key sequence"):
-                kinds.add("D15")
-            else:
-                kinds.add(None)
-        fp = kinds.pop() if (len(kinds) == 1 and lost_n == sum(len(c) for c in curs) and not led.no_footprints) else None
-        led.fail("after draining: %d bytes arrived, %d came back, %d still in the OS buffer" %
-                 (len(led.S) + len(led.U), len(led.R), len(left)), fp)
+    if "bytes" in led.blind and not led.desync and not is_shuffle(bytes(led.R) + left, bytes(led.S), bytes(led.U)):
+        # every loss at a raising request has been recorded and forgotten: what is missing now was dropped silently
+        led.fail("after draining: %d bytes arrived (known losses deducted), %d came back, %d still in the OS buffer" %
+                 (len(led.S) + len(led.U), len(led.R), len(left)), None)
     for k, ids in led.ent.items():
         if "events" in led.blind and led.ret.get(k, []) != [e for e in ids if (k, e) not in led.inflight]:
             led.fail("after draining: events of trigger %s triggered %r, returned %r" % (k, ids, led.ret.get(k, [])))
@@ -1595,7 +1658,8 @@ def run_cases(ctx, cases, tie=True):
                 model = outs
             # a known finding may not excuse a case on which model and code disagree about what was returned or about
             # which bytes are still held
-            disagree = [canon_returned(m) != canon_returned(o) or held_bytes(m) != held_bytes(o) for m, o in zip(model, outs)]
+            disagree = [canon_returned(m) != canon_returned(o) or (held_bytes(o) is not None and held_bytes(m) != held_bytes(o))
+                        for m, o in zip(model, outs)]
         else:
             outs = [impl(c) for c in cases]
             disagree = [False] * len(cases)
